@@ -190,7 +190,7 @@ type honest struct {
 }
 
 type world struct {
-	h       []*honest // A1 (init a), B1 (resp b), A2 (resp a), B2 (init b)
+	h       []*honest // A1 (init a), B1 (resp b), A2 (resp a), B2 (init b), B3 (resp b)
 	ci      [2]*craftInit
 	cr      [2]*craftResp
 	trace   []string
@@ -208,6 +208,7 @@ func newWorld() *world {
 	mk("B1", keyB, false)
 	mk("A2", keyA, false)
 	mk("B2", keyB, true)
+	mk("B3", keyB, false) // a second responder of b: a handshake recorded at B1 can be replayed here
 	for i := range w.ci {
 		w.ci[i] = &craftInit{target: -1}
 		w.cr[i] = &craftResp{target: -1}
@@ -289,6 +290,16 @@ func (w *world) keyName(k x509.PublicKey) string {
 
 // oracle: evaluated after every single delivery.
 func (w *world) oracle(after string) {
+	// "this very handshake": two responder sessions must never share a key-exchange
+	// transcript, or a signature made for one handshake is valid in the other
+	for i, h := range w.h {
+		for j := i + 1; j < len(w.h); j++ {
+			o := w.h[j]
+			if !h.s.IsInit() && !o.s.IsInit() && h.s.VerifHsIndex() >= 1 && o.s.VerifHsIndex() >= 1 && bytes.Equal(h.s.VerifBinding(), o.s.VerifBinding()) {
+				panic(violation{"handshake-transcript-not-fresh", "Session", fmt.Sprintf("responder sessions %s and %s share one key-exchange transcript after %s: what the initiator signs for one handshake authenticates the other as well", h.name, o.name, after)})
+			}
+		}
+	}
 	for i, h := range w.h {
 		s := h.s
 		usable := s.IsReady()
